@@ -436,8 +436,5 @@ def run(tier: str) -> Check:
     check.floor("squash_compile_sites", 2)
     check.floor("inline_model_references", 40)
     check.floor("pipeline_model_grammars", 25)
-    check.floor("optional_helper_call_sites", 7)
-    check.floor("unroll_arms", 5)
-    check.floor("default_steps", 5)
-    check.floor("pass_mutation_sites", 5)
+    # (no floors on what only the second-opinion readings count)
     return check
